@@ -11,6 +11,10 @@ CONSTANTS
   ShareOnCopy = TRUE
   CloneBeforeAdd = TRUE
   RebindOnLarge = FALSE
+  Faults = {}
+  MaxFaults = 0
+  DeferUnlock = TRUE
+  StickyError = TRUE
   MaxH = 100000
   MaxLogs = 0
   MaxGroups = 0
